@@ -7,6 +7,7 @@ from typing import Set
 from .. import cfg as C, flow, guards, dataflow
 from ..program import AnalysisError, Program, norm, walk_local, ancestors
 from ..report import Check
+from ..types import Types
 from ..util import calls_in, fkey, is_method_call, node_calls, path_of, recv_of, where
 
 PAR = "pyrtma.parser"
@@ -93,6 +94,7 @@ def hash_roots(f, expr, depth=0, seen=None) -> Set[str]:
 
 
 def run(prog: Program, chk: Check):
+    ty = Types(prog)
     chk.explanation = (
         "C13 decided as information flow and sibling agreement: the sha256 input at the three hashing sites closes backwards exactly "
         "over (name, id, in-order field name/type pairs) - each component must be a root (so the hash changes when it changes) and "
@@ -258,7 +260,42 @@ def run(prog: Program, chk: Check):
                         if any(guards.implies(pth, gl) for gl in goals):
                             continue
                         bad.append(pth)
-                # unstamped paths that run through an `except UnknownMessageType` handler are the documented "no local definition" case
+                # `cls = get_msg_cls(t)` cannot be None (the function's own return annotation is not Optional): a path that assumes
+                # it is - the else side of `if cls is not None:` after a successful lookup - is not a path
+                def nonnull_locals():
+                    out_ = set()
+                    for a_ in walk_local(f.node):
+                        tgt_, val_ = (a_.targets[0], a_.value) if isinstance(a_, ast.Assign) and len(a_.targets) == 1 else ((a_.target, a_.value) if isinstance(a_, ast.AnnAssign) else (None, None))
+                        if isinstance(tgt_, ast.Name) and isinstance(val_, ast.Call):
+                            _st, fi_, _ds = ty.callee(f, val_)
+                            if fi_ is not None and fi_.node.returns is not None and not any(w in norm(fi_.node.returns) for w in ("Optional", "None", "Any")):
+                                out_.add((tgt_.id, a_))
+                    return out_
+
+                if bad:
+                    nn = nonnull_locals()
+                    keep = []
+                    for pth in bad:
+                        infeasible = False
+                        for nm_, asg in nn:
+                            # the fact must postdate that very assignment: facts about nm_ are killed by every store to nm_, so a
+                            # surviving `nm_ is None` fact on a path through the assignment contradicts it; a path through
+                            # another assignment (`nm_ = None` in the handler) carries the constant fact instead and is kept
+                            txt = {(norm(x_), pol_) for x_, pol_ in pth}
+                            says_none = (f"{nm_} is None", True) in txt or (f"{nm_} is not None", False) in txt
+                            from_const = any(isinstance(a2, ast.Assign) and len(a2.targets) == 1 and isinstance(a2.targets[0], ast.Name) and a2.targets[0].id == nm_
+                                             and isinstance(a2.value, ast.Constant) and a2.value.value is None for a2 in walk_local(f.node))
+                            if says_none and not from_const:
+                                infeasible = True
+                            elif says_none and from_const:
+                                # only paths through the handler's `nm_ = None` may claim it: they carry the handler's exception fact
+                                if not any("UnknownMessageType" in t_ for t_, _ in txt):
+                                    infeasible = True
+                        if not infeasible:
+                            keep.append(pth)
+                    # what remains and carries the handler's exception fact went through `except UnknownMessageType`: the documented
+                    # "no local definition" case
+                    bad = [pth for pth in keep if not any(pol_ and "UnknownMessageType" in norm(x_) for x_, pol_ in pth)] if nn else keep
                 if bad:
                     via_handler = flow.reach(g, [g.entry.id], blocked=sids, follow=lambda e: True)
                     handlers = [n for n in g.nodes if n.kind == "handler" and n.ast.type is not None and "UnknownMessageType" in norm(n.ast.type)]
